@@ -127,7 +127,9 @@ def gen():
         w("    open spec fn eq_spec(&self, other: &%s) -> bool { %s } }" % (name, eqs))
         nones = " && ".join(["p.%s is None" % f for f in allf] + ["p.user_properties@.len() == 0"])
         w("pub open spec fn %s_empty(p: %s) -> bool { %s }" % (name, name, nones))
-        w("pub assume_specification [<%s as Default>::default]() -> (r: %s) ensures %s_empty(r);" % (name, name, name))
+        emptyv = ", ".join(["%s: None" % f for f in allf] + ["user_properties: mk_vec(Seq::<UserProperty>::empty())"])
+        w("pub open spec fn empty_%s() -> %s { %s { %s } }" % (name, name, name, emptyv))
+        w("pub assume_specification [<%s as Default>::default]() -> (r: %s) ensures %s_empty(r), r == empty_%s();" % (name, name, name, name))
         oks = ["%s(p.%s)" % (OKFN[PROPS[q][1]], PROPS[q][2]) for q in props if PROPS[q][1] in OKFN]
         oks.append("ups_ok(p.user_properties@)")
         oks.append("enc_%s_body(p).len() < 268435456" % name)
@@ -143,9 +145,6 @@ def gen():
     w("@spec")
     # ---- decoder specs (accumulator-style loop; the `len` bookkeeping is the crate's: bytes of the *minimal* encoding)
     for name, mod, props, is_will in SETS:
-        allf = [PROPS[q][2] for q in props]
-        empty = ", ".join(["%s: None" % f for f in allf] + ["user_properties: mk_vec(Seq::<UserProperty>::empty())"])
-        w("pub open spec fn empty_%s() -> %s { %s { %s } }" % (name, name, name, empty))
         w("#[verifier::opaque]")
         w("pub open spec fn p5_%s_loop(s: Seq<u8>, plen: nat, len: nat, acc: %s, used: nat, pt: PacketType) -> PR<%s, ErrorV5>" % (name, name, name))
         w("    decreases (if plen > len { (plen - len) as nat } else { 0nat })")
